@@ -40,6 +40,11 @@ func writeReplay(eng *Engine, dir, pid, name string, st *oblStatus, fr *FuncResu
 					rf.Inputs[v.Name] = val
 				}
 			}
+			for _, v := range st.FailInst.Fields {
+				if val, ok := st.FailRes.Model[v.Term]; ok {
+					rf.Inputs[v.Path] = val
+				}
+			}
 		}
 	}
 	status := "not-attempted"
